@@ -76,13 +76,13 @@ class Gen:
     # expressions ------------------------------------------------------------------------------
     def expr(self, scope, funcs, depth=0):
         r = self.rng.random()
-        if scope and r < 0.40:
-            return ("v", self.rng.choice(scope))
-        if funcs and r < 0.55 and depth < 2:
-            return ("c", self.rng.choice(funcs), self.expr(scope, funcs, depth + 1))
-        if r < 0.60:
+        if r < 0.006:
             return ("v", 90 + self.rng.randrange(3))          # out of scope: "Undefined variable."
-        if r < 0.80:
+        if scope and r < 0.45:
+            return ("v", self.rng.choice(scope))
+        if funcs and r < 0.62 and depth < 2:
+            return ("c", self.rng.choice(funcs), self.expr(scope, funcs, depth + 1))
+        if r < 0.82:
             return ("s", self.rng.randrange(10))
         return ("i", self.rng.randrange(-3, 12))
 
@@ -97,7 +97,7 @@ class Gen:
             return ("D", self.expr(scope, funcs))
         if r < 0.55:
             return ("W", self.expr(scope, funcs))
-        if r < 0.58:
+        if r < 0.565:
             return ("E", self.expr(scope, funcs))
         if r < 0.72:
             x = self.fresh()
@@ -107,7 +107,7 @@ class Gen:
         if r < 0.84:
             if scope and self.rng.random() < 0.7:
                 c = ("q", self.rng.choice(scope), self.rng.randrange(-1, 4))
-            elif self.rng.random() < 0.1:
+            elif self.rng.random() < 0.02:
                 c = ("q", 95, 1)
             else:
                 c = ("t",) if self.rng.random() < 0.5 else ("f",)
@@ -120,10 +120,12 @@ class Gen:
         if r < 0.94:
             return ("B", self.stmts(ctx, scope, mixins, funcs, depth + 1))
         # @include
-        if mixins and self.rng.random() < 0.93:
+        if mixins and self.rng.random() < 0.97:
             m, hasp = self.rng.choice(mixins)
             return ("N", m, self.expr(scope, funcs) if hasp else None)
-        return ("N", 77, None)                                  # "Undefined mixin."
+        if self.rng.random() < 0.25:
+            return ("N", 77, None)                              # "Undefined mixin."
+        return ("D", self.expr(scope, funcs))
 
     def project(self):
         rng = self.rng
@@ -368,7 +370,8 @@ def run_logging(ck, pool, n_programs, failing, first=True):
         ck.count(("log", toks), nontrivial)
         ck.hist("logging:files=%d" % len(names))
         ck.hist("logging:events=" + ("0" if n_ev == 0 else "1-3" if n_ev <= 3 else "4-10" if n_ev <= 10 else ">10"))
-        ck.hist("logging:outcome=" + (m_loud[0][0] if m_loud[0][0] == "ok" else "err:" + m_loud[0][3][:20]))
+        ck.hist("logging:outcome=" + (m_loud[0][0] if m_loud[0][0] == "ok" else
+                                      "err:" + (m_loud[0][3] if m_loud[0][3].startswith("Undefined") else "@error")))
         for t in re.findall(r"\b([FIMUNPLB])\b", toks):
             ck.hist("logging:stmt=" + t)
         if idx % 211 == 0:
@@ -377,8 +380,8 @@ def run_logging(ck, pool, n_programs, failing, first=True):
         # (b) tie, loud and quiet
         for label, a, m in (("loud", a_loud, m_loud), ("quiet", a_quiet, m_quiet)):
             io, ie = impl_outcome(a), impl_events(a)
-            if a.get("status") == "timeout":
-                ck.hist("logging:timeout")
+            if a.get("status") in ("timeout", "abort"):
+                ck.hist("logging:" + a.get("status"))
                 continue
             if io != m[0] or ie != m[1]:
                 ck.cov["model_disagreements"] += 1
@@ -546,7 +549,7 @@ def gen_failing(ck, tier, cs):
         if c["kind"] == "error":
             cases.append({"src": c["input"], "syntax": c["options"].get("syntax"), "tag": "corpus-error"})
     pool_inputs = [c for c in cs if "@while" not in c["input"] and len(c["input"]) < 600]
-    n_mut = 1700 if quick else 100000
+    n_mut = 1700 if quick else 80000
     for _ in range(n_mut):
         c = rng.choice(pool_inputs)
         s = c["input"]
@@ -714,6 +717,12 @@ def run_failing(ck, pool, cases, failing, ascii_every=1):
                     ck.hist("multi-file:blamed=" + ("entry" if e.get("file") == "main.scss" else "imported"))
             elif st == "timeout":
                 ck.hist("failing:timeout")
+            elif st == "abort":
+                # the worker process died (SIGABRT = stack overflow of an unbounded @include/@function
+                # recursion a mutation made unconditional): termination/resources are C01's concern
+                ck.hist("failing:abort(process died; C01)")
+                if len(ck.aborts) < 5:
+                    ck.aborts.append({"why": a.get("why"), "input": case_text(c)[:400]})
             elif st not in ("ok", "skipped"):
                 row["problems"].append({"what": f"runner status {st}", "detail": str(a)[:300]})
             if a.get("captured"):
@@ -748,6 +757,7 @@ def run(tier, seed):
     ck = Check("C19", tier, seed)
     ck.other_panics = {}
     ck.msgs = collections.Counter()
+    ck.aborts = []
     ck.cov["rule"] = (
         "failing inputs: regression corpus (D19/D23/D24), @error table, every golden `error!` case, token-level "
         "mutations of golden inputs (delete/duplicate/truncate/insert bracket, multi-byte character or interpolation/"
@@ -762,8 +772,8 @@ def run(tier, seed):
     ck.assumptions = [
         "one directive per line in generated logging programs, so (file, line) identifies a directive's span",
         "file names as the runner's in-memory Fs reports them; `stdin` for from_string",
-        "panics outside the diagnostics path (not in codemap/lexer.rs/error.rs/lib.rs) are C01's concern: counted and "
-        "listed under notes, not judged here",
+        "panics outside the diagnostics path (not in codemap/lexer.rs/error.rs/lib.rs), worker aborts (stack overflow "
+        "of unbounded recursion) and timeouts are C01's concern: counted and listed under notes, not judged here",
         "grass reports the line of the directive's *expression* (parse/stylesheet.rs:400,1396); the generators print "
         "the expression on the directive's line",
     ]
@@ -787,12 +797,14 @@ def run(tier, seed):
         log(f"[C19] failing inputs: {min(off + B, len(cases))}/{len(cases)} done, {len(failing)} failing")
     t3 = time.time()
     ck.cov["phase_wall_s"]["failing inputs"] = round(t3 - t2, 1)
-    n_prog = 1500 if tier == "quick" else 30000
+    n_prog = 1500 if tier == "quick" else 20000
     for off in range(0, n_prog, 10000):
         run_logging(ck, pool, min(10000, n_prog - off), failing, first=(off == 0))
         log(f"[C19] logging programs: {min(off + 10000, n_prog)}/{n_prog} done, {len(failing)} failing")
     ck.cov["phase_wall_s"]["logging programs"] = round(time.time() - t3, 1)
     log(f"[C19] phases: {ck.cov['phase_wall_s']}")
+    if ck.aborts:
+        ck.notes.append({"worker aborts, not judged here (C01)": ck.aborts})
     for m, n in ck.msgs.most_common(30):
         ck.hist("failing:msg=" + m, n)
     ck.hist("failing:distinct-message-classes", len(ck.msgs))
@@ -828,6 +840,7 @@ def replay(path):
     ck = Check("C19", "quick", 0)
     ck.other_panics = {}
     ck.msgs = collections.Counter()
+    ck.aborts = []
     ck.do_build_runner()
     pool = RunnerPool(2)
     failing = []
